@@ -20,7 +20,7 @@ def main():
         sa = SC.StandardCombi.restore_from_file("mem://child")
         P = query_points(req["rk"], req["a"], req["b"], req["npts"])
         vals = query_sequence(SC.StandardCombi.restore_from_file("mem://child"), P, req.get("interp", True), clone=False)
-        ret = sa.continue_adaptive_refinement(tol=-1.0, max_evaluations=req["final"])
+        ret = sa.continue_adaptive_refinement(tol=req.get("tol", -1.0), max_evaluations=req["final"])
         snap = snapshot_of(sa, req["strategy"], ret)
     sys.stdout.write("\n@@SNAP@@" + json.dumps({"snap": snap, "vals": vals}) + "\n")
     sys.stdout.flush()
